@@ -33,7 +33,7 @@ MANIFEST = {
     'technique': 'Lean 4 invariant proof over histories of the domain registry; correspondence check on histories',
 }
 
-CFGS = [(8, 5, 15), (4, 3, 10), (20, 7, 30)]
+CFGS = [(8, 5, 15), (4, 3, 10), (20, 7, 30), (5, 3, 12), (9, 4, 11)]     # the last two: a requested length ON the cut-off
 
 
 def alphabet():
@@ -91,6 +91,10 @@ def oracle_after(iw, line, out, res, hist_lines):
         want = 'short' if o.length <= cls.DTYPE_CUTOFF else 'long'
         if o.dtype != want:
             res.violation('dtype-rule', {'history': hist_lines}, '%r has dtype %r' % (o, o.dtype), want)
+    if f[0] == 'mk.dom' and f[3] != '-' and o.length != int(f[3]):
+        res.violation('length-not-as-requested', {'history': hist_lines}, '%r has length %r' % (o, o.length), 'length %s' % f[3])
+    if f[0] == 'mk.dom' and f[5] != '-' and o.length is not None and o.dtype != f[5]:
+        res.violation('dtype-not-as-requested', {'history': hist_lines}, '%r has dtype %r' % (o, o.dtype), 'dtype %s (or ObjectInitError)' % f[5])
     if f[0] == 'mk.dom' and out.endswith('new') and f[3] == '-' and f[5] != '-':
         want = cls.SHORT_DOM_LEN if f[5] == 'short' else cls.LONG_DOM_LEN
         if o.length != want:
@@ -133,7 +137,13 @@ def run(res, proof):
             o = hist.run_checked(iw, [l], res, 'C04', check_domains=True, prefix=hl)[0]
             hl.append(l); ho.append(o)
             hl.append('names'); ho.append(iw.do('names'))
-            oracle_after(iw, l, o, res, hl)      # may create complements: mirror that in the history
+            try:
+                oracle_after(iw, l, o, res, hl)      # may create complements: mirror that in the history
+            except Exception as e:
+                res.violation('complement-api-raises:' + type(e).__name__, {'history': list(hl)}, type(e).__name__ + ' while taking complements of the returned domain',
+                              '~d and ~~d never raise for a live domain')
+                e = None
+                return
             dtype_all(iw, res, hl)
             bad = hist.domain_lengths_agree(iw)
             if bad:
